@@ -100,6 +100,12 @@ FLOORS = {
                               "set_index_quantile_divisions": 15000, "quantile_with_empty_input_partitions": 2800},
                  "max_skipped_fraction": 0.1},
 }
+# parameter audit (from_pandas facet, new quantile dtypes, set_index(other=) forms): about 45 percent of the smallest count
+# of the five quick seeds on the tree with the C45 patches; thorough scaled by the stream ratios (from_pandas x11.5, quantile x8)
+FLOORS["quick"]["counters"].update({'from_pandas_calls': 1170, 'from_pandas_npartitions_calls': 569, 'from_pandas_chunksize_calls': 569, 'from_pandas_index_with_duplicates': 647, 'from_pandas_planned_divisions': 1075, 'from_pandas_sorted_by_from_pandas': 255, 'from_pandas_unsorted_without_sort': 80, 'from_pandas_npartitions_exact_checked': 316, 'from_pandas_boundaries_checked': 4200, 'quantile_new_dtype': 1279, 'set_index_other_series': 556, 'set_index_other_list': 549})
+FLOORS["thorough"]["counters"].update({'from_pandas_calls': 12870, 'from_pandas_npartitions_calls': 6259, 'from_pandas_chunksize_calls': 6259, 'from_pandas_index_with_duplicates': 7117, 'from_pandas_planned_divisions': 11825, 'from_pandas_sorted_by_from_pandas': 2805, 'from_pandas_unsorted_without_sort': 880, 'from_pandas_npartitions_exact_checked': 3476, 'from_pandas_boundaries_checked': 46200, 'quantile_new_dtype': 10232, 'set_index_other_series': 4448, 'set_index_other_list': 4392})
+FLOORS["quick"]["sets"] = {"from_pandas_index_dtypes": 10, "quantile_dtypes": 13, "random_value_types": 9}
+FLOORS["thorough"]["sets"] = {"from_pandas_index_dtypes": 10, "quantile_dtypes": 13, "random_value_types": 9}
 EXHAUSTIVE_SPACE = {
     "quick": "all 494 sorted sequences of length 1..8 over a 4-letter alphabet (as str and as int values) x "
              "{ndarray, pd.Index, pd.Series} x every npartitions and every chunksize in 1..len+1",
